@@ -447,6 +447,12 @@ class EvolvableModule(nn.Module, metaclass=ModuleMeta):
                     )
                     param.data[slice_index] = old_param.data[slice_index]
 
+        # Buffers of unchanged layers (e.g. batch norm running statistics) are part of what was learned
+        old_net_buffers = dict(old_net.named_buffers())
+        for key, buffer in new_net.named_buffers():
+            if key in old_net_buffers and old_net_buffers[key].size() == buffer.size():
+                buffer.data = old_net_buffers[key].data.clone()
+
         return new_net
 
     @staticmethod
